@@ -395,7 +395,7 @@ func init() {
 		Run: func(rc *engine.RunCtx) *engine.Result {
 			res := engine.NewResult()
 			y := &c19Sys{}
-			rep, err := engine.Explore[*c19State](y, opts(rc, pick(rc, 4, 5)))
+			rep, err := engine.Explore[*c19State](y, opts(rc, pick(rc, 5, 6)))
 			if err != nil {
 				res.HarnessErr = err
 				return res
